@@ -1324,8 +1324,8 @@ KNOWN_CLASS = {"F4": (M_DRAINLEFT, "F4_witness.cases"), "F5": (M_PREPHELD, "F5_w
 
 # theorems pinned per property (coq/Props/<prop>.v)
 PINS = {
-    "C01": ["C01_exactly_once_fifo", "F4_refuted"], "C02": ["C02_fifo_lifecycle", "C02_order_gating_partial"], "C03": ["C03_terminates_once", "C03_terminates_once_checked", "C03_decomposition", "C03_lifecycle", "C03_cause", "C03_once_partial"],
-    "C04": ["C04_notify_check", "C04_runret_check", "C04_slab_children_terminate", "C04_runret_split", "C04_drop_takes_queue_place", "C04_never_dropped_while_owned", "C04_never_dropped_while_owned_chk", "C04_last_owner_terminates", "C04_owner_census", "C04_monitor_split", "C04_owner_count_partial"], "C05": ["C05_as_checked", "C05_ret_exactly_once", "C05_calls_not_lost", "C05_ret_exactly_once_checked", "C05_ret_once_partial"], "C06": ["C06_quiescence_lazy_idle", "C06_plain_any_deferrer"],
+    "C01": ["C01_exactly_once_fifo", "F4_refuted"], "C02": ["C02_fifo_lifecycle", "C02_order_gating_partial"], "C03": ["C03_terminates_once", "C03_dropped_cause_issued", "C03_terminates_once_checked", "C03_decomposition", "C03_lifecycle", "C03_cause", "C03_once_partial"],
+    "C04": ["C04_last_owner_dropped", "C04_slab_len", "C04_notify_check", "C04_runret_check", "C04_slab_children_terminate", "C04_runret_split", "C04_drop_takes_queue_place", "C04_never_dropped_while_owned", "C04_never_dropped_while_owned_chk", "C04_last_owner_terminates", "C04_owner_census", "C04_monitor_split", "C04_owner_count_partial"], "C05": ["C05_as_checked", "C05_ret_exactly_once", "C05_calls_not_lost", "C05_ret_exactly_once_checked", "C05_ret_once_partial"], "C06": ["C06_quiescence_lazy_idle", "C06_plain_any_deferrer"],
     "C15": ["C15_time"], "C16": ["C16_of_no_leak", "C16_released_once_partial", "C16_released_once_rest", "C16_decomposition", "C16_no_uaf", "C16_flags_no_leak_part", "C16_flags_of_no_leak", "C16_heap_partial"], "C20": ["C20_open_close_filter", "C20_filter_table"],
 }
 PROOF_FILES = ["R/Syntax.v", "R/Rt.v", "R/Mon.v"]
@@ -1342,10 +1342,10 @@ CLAIM = {
                 missing=""),
     "C02": dict(partial=False, proved="C02_fifo_lifecycle: forall p fuel t, exec DGlobal fuel p = Done t -> C02_ok t = true (per-actor FIFO of calls across Prep->Ready, lifecycle gating, discards justified by termination / teardown; global / thread-local deferrer); C02_order_gating_partial: one-item facts",
                 missing=""),
-    "C03": dict(partial=False, proved="C03_terminates_once: forall d p fuel t, exec d fuel p = Done t -> no_container_leak t -> C03_ok t = true (hypothesis decidable on the trace: no leaked closure / actor value / notifier; it is false only in the known-finding classes F5 / F7 and for an actor storing a reference to itself, where C03_ok is indeed false: C03_F5_refuted, C03_F7_refuted, C03_selfcycle_refuted); C03_terminates_once_checked (boolean hypothesis ncl_b); C03_decomposition (C03_ok from the lifecycle monitor okL and the cause monitor okK); C03_lifecycle; C03_cause (okK for every run, no hypothesis); C03_once_partial (one-step facts)",
+    "C03": dict(partial=False, proved="C03_terminates_once: forall d p fuel t, exec d fuel p = Done t -> no_container_leak t -> C03_ok t = true (hypothesis decidable on the trace: no leaked closure / actor value / notifier; it is false only in the known-finding classes F5 / F7 and for an actor storing a reference to itself, where C03_ok is indeed false: C03_F5_refuted, C03_F7_refuted, C03_selfcycle_refuted); C03_terminates_once_checked (boolean hypothesis ncl_b); C03_decomposition (C03_ok from the lifecycle monitor okL and the cause monitor okK); C03_lifecycle; C03_cause (okK for every run, no hypothesis); C03_once_partial (one-step facts); C03_dropped_cause_issued: forall p fuel t, exec DGlobal fuel p = Done t -> length t < CMAX-1 -> C03_dropped_ok t = true (a notifier is invoked with Dropped only when the trace shows no visible owner: the request was actually issued; the check evaluates C03_ok && C03_dropped_ok on real traces)",
                 missing=""),
-    "C04": dict(partial=True, proved="for every program and fuel, global / thread-local deferrer, fewer than CMAX-1 events: C04_notify_check (the whole check made at notify a Dropped): C04_never_dropped_while_owned (the trace shows no visible owner of a) and C04_drop_takes_queue_place (every call to a pending when its last visible owner went has been started or discarded: the termination takes the drop's place in the main queue); C04_runret_check (the whole check made when run returns): C04_last_owner_terminates (every actor that lost its last visible owner since the Stakker was created is notified) and C04_slab_children_terminate (the slab children of every notified parent are notified: the ownership tree terminates in the same run); C04_owner_census (invariant: count field of the packed CountAndState word = number of owner handles anywhere in the configuration = invisible owners + EOwnNew - EOwnDrop; deferred terminate(Dropped) queued exactly on 1 -> 0); C04_monitor_split (C04_ok = total state function + three checks); Examples: C04_example, C04_slab_example, C04_inline_deferrer_refuted (inline deferrer outside the claim), C04_saturation (the bound); C04_owner_count_partial (one-step facts)",
-                missing="the slablen check (slab.len() lies between the number of children not yet notified and the number not notified at the last runret): validated on traces only"),
+    "C04": dict(partial=False, proved="C04_last_owner_dropped: forall p fuel t, exec DGlobal fuel p = Done t -> Z.of_nat (length t) < CMAX - 1 -> C04_ok t = true (global / thread-local deferrer; CMAX = 2^62-1 is the saturation point of the packed owner count). Both hypotheses are necessary: C04_inline_deferrer_refuted (with the inline deferrer a kill! queued while no Stakker exists parks an owner for ever: C04_ok false on the model trace), C04_saturation (at CMAX the generated count_inc is the identity and the count never comes down again). Parts: C04_monitor_split (C04_ok = total state function + three checks); C04_notify_check (at notify a Dropped: C04_never_dropped_while_owned - no visible owner of a - and C04_drop_takes_queue_place - every call to a pending when its last visible owner went has been started or discarded: the termination takes the drop's place in the main queue); C04_runret_check (when run returns: C04_last_owner_terminates - every actor that lost its last visible owner since the Stakker was created is notified - and C04_slab_children_terminate - so are the slab children of every notified parent); C04_slab_len (slab.len() is at least the number of children not yet notified and at most the number not notified at the last runret); C04_owner_census (invariant: count field of the packed CountAndState word = number of owner handles anywhere in the configuration = invisible owners + EOwnNew - EOwnDrop; deferred terminate(Dropped) queued exactly on 1 -> 0); Examples C04_example, C04_slab_example; C04_owner_count_partial (one-step facts)",
+                missing=""),
     "C05": dict(partial=False, proved="C05_as_checked: forall p fuel t, exec DGlobal fuel p = Done t -> NoDup (ret_ids t) -> no_container_leak t -> C05_ok t && C05_calls_ok t = true; C05_ret_exactly_once: the first conjunct for either deferrer (every Ret created once and invoked exactly once, with the value sent or None where it is dropped); C05_calls_not_lost: the second conjunct without hypotheses (DGlobal). The two hypotheses are decidable on the trace (distinct Ret ids; no leaked closure / actor value / notifier) and cannot be dropped: F5, F7, a self-reference cycle and the inline-deferrer leftover are refuted at model level (C05_*_model)",
                 missing=""),
     "C16": dict(partial=True, proved="C16_of_no_leak: forall d p fuel t, exec d fuel p = Done t -> (forall k i, ~ In (ELeak k i) t) -> C16_ok t = true (hypothesis decidable on the trace; necessary: C16_leak_refuted, finding F5); from C16_decomposition (C16_ok = C16_flags_ok && C16_once_ok K && C16_once_ok (not K)), C16_released_once_partial (closure instances, actor values, user Rets, termination notifiers: consumed only if created before and not consumed yet), C16_released_once_rest (the same for tokens, Fwd closures, orphaned value tokens), C16_no_uaf (no access to an actor cell that is gone - not in the table / already freed - in any run), C16_flags_no_leak_part (the flag check without its leak conjunct holds in every run), C16_flags_of_no_leak; C16_heap_partial: translated MinRc table frees exactly on 1->0, clone/drop round trip, model frees the cell exactly then",
